@@ -286,6 +286,19 @@ pub fn run(spec: &SeqSpec, hist: &[Op], cfg: &Cfg, stats: &SeqStats) -> Result<R
                 let before_entries = sut.read(0, u64::MAX);
                 let before_dump = sut.dump_string();
                 let before_files = sut.files();
+                if !o.panics_only {
+                    let offline = sut.offline_dump();
+                    if offline != before_dump || sut.files() != before_files {
+                        return Err(vio(
+                            spec,
+                            "offline-dump-differs",
+                            format!("standalone Dump of the closed directory {:?} != dump of the live store {:?} (files {:?} -> {:?})", offline, before_dump, before_files, sut.files()),
+                            upto,
+                            cfg,
+                            json!({}),
+                        ));
+                    }
+                }
                 if let Err(e) = sut.reopen(new_cfg) {
                     return Err(vio(
                         spec,
@@ -644,6 +657,18 @@ pub fn run(spec: &SeqSpec, hist: &[Op], cfg: &Cfg, stats: &SeqStats) -> Result<R
     }
     if o.restart_epilogue {
         let before_dump = sut.dump_string();
+        let before_files = sut.files();
+        let offline = sut.offline_dump();
+        if offline != before_dump || sut.files() != before_files {
+            return Err(vio(
+                spec,
+                "offline-dump-differs",
+                format!("standalone Dump of the closed directory {:?} != dump of the live store {:?} (files {:?} -> {:?})", offline, before_dump, before_files, sut.files()),
+                hist,
+                cfg,
+                json!({"at":"epilogue"}),
+            ));
+        }
         if let Err(e) = sut.reopen(cur_cfg) {
             return Err(vio(
                 spec,
